@@ -316,7 +316,8 @@ func checkClosed(c ClosedCase) (string, string) {
 		if err == nil {
 			return base + ":" + m + ":succeeds", fmt.Sprintf("%s after Close returned nil (os.File: %v)", m, oerr)
 		}
-		if supported && errors.Is(oerr, os.ErrClosed) && !errors.Is(err, hackpadfs.ErrClosed) {
+		_ = supported // methods the handle never had answer ErrClosed after Close as well (the helpers look at the handle first)
+		if errors.Is(oerr, os.ErrClosed) && !errors.Is(err, hackpadfs.ErrClosed) {
 			return base + ":" + m + ":not-errclosed", fmt.Sprintf("%s after Close: %v does not match ErrClosed (os.File: %v)", m, err, oerr)
 		}
 	}
